@@ -17,6 +17,24 @@ Theorem C02_comet_set_is_last_powers : forall g bs,
               exists id v, vals (stk (w_chain w)) !! id = Some v /\ v_cons v = k /\ last_pow (stk (w_chain w)) !! id = Some p.
 Proof. exact reachable_comet_rel. Qed.
 
+(* whatever max_validators is: every key in CometBFT's set belongs to a validator that is not jailed, at exactly the
+   power of the tokens its record holds, and that power is positive — nobody pending, removed, jailed or without
+   power is in the set, and no power in it is stale *)
+Theorem C02_every_member_is_an_unjailed_validator_at_its_token_power : forall g bs,
+  wf_genesis g ->
+  let w := run_world (init_world g) bs in
+  w_halted w = None ->
+  forall k p, c_next (w_comet w) !! k = Some p ->
+    exists id v, vals (stk (w_chain w)) !! id = Some v /\ v_cons v = k /\ v_jailed v = false /\ v_status v = Bonded /\
+                 p = tokens_to_power (v_tokens v) /\ 0 < p.
+Proof.
+  intros g bs Hg w Hh k p Hk. apply (reachable_comet_rel g bs Hg Hh k p) in Hk as (id & v & Hv & Hc & Hl).
+  destruct (reachable_members_ok g bs Hg Hh id p Hl) as (v' & Hv' & Hj & Hp & Hpos).
+  assert (v' = v) by (unfold w in Hv; congruence). subst v'.
+  destruct (reachable_CI g bs Hg) as [HS _]. destruct (si_last _ HS id p Hl) as (v2 & Hv2 & Hst). assert (v2 = v) by (unfold w in Hv; congruence). subst v2.
+  exists id, v. repeat split; auto.
+Qed.
+
 (* ... and which validators those are: whenever max_validators does not bind (the number of validators that are not
    jailed and have a positive power — the positive entries of the power index — does not exceed it), CometBFT's set
    after any block of any history consists of exactly the validators that are not jailed and hold tokens worth a
